@@ -67,6 +67,9 @@ func targetOf(name string) (string, map[string]bool) {
 		if strings.HasPrefix(f, "target=") {
 			t = f[7:]
 		}
+		if strings.HasPrefix(f, "engine=") {
+			t = f
+		}
 		if strings.HasPrefix(f, "sup:") {
 			kv := strings.SplitN(f[4:], "=", 2)
 			sup[kv[0]] = len(kv) > 1 && kv[1] == "true"
@@ -100,6 +103,10 @@ func init() {
 				names := []string{"target=" + targets[gr.Intn(len(targets))] + pickS(gr, "", ",ms", ",ms,mi,mw", ",fmt=cjs", ",fmt=iife")}
 				names = append(names, "sup:"+lowerable[gr.Intn(len(lowerable))]+"=false"+pickS(gr, "", ",ms"))
 				names = append(names, "target="+targets[gr.Intn(5)]+",sup:"+lowerable[gr.Intn(len(lowerable))]+"=true")
+				// TypeScript loader with class-field semantics selected by tsconfig, engine targets
+				names = append(names, "loader=ts,tsconfig={\"compilerOptions\":{\"useDefineForClassFields\":"+pickS(gr, "true", "false")+"}},"+
+					pickS(gr, "sup:class-static-blocks=false", "sup:class-static-field=false", "engine=chrome:80", "engine=node:14", "engine=safari:15", "target=es2022,sup:class-static-blocks=false", "sup:class-field=false"))
+				names = append(names, pickS(gr, "engine=chrome:60", "engine=firefox:70", "engine=safari:12", "engine=node:10", "engine=edge:18", "engine=chrome:90", "engine=node:16")+pickS(gr, "", ",ms"))
 				for _, name := range names {
 					res, pan := transformSafe(src, optsFromName(name))
 					rep.Evaluations++
